@@ -14,8 +14,7 @@ Definition plain_acct (x : addr) (b : Z) : start_acct :=
    dirty/origin storage slices + index maps, journal, validRevisions, persistent layer) to a
    state of the reference semantics (account map, stack of copied states).  Every operation of
    the proved core preserves it with EQUAL return values — outside the Coq-defined defect
-   regions ([pstep_ok] = no trigger fires, the client respects the interface contract, a revert
-   leaves the dirties index intact) — hence for every operation sequence, with arbitrary
+   regions ([pstep_ok] = no trigger fires and the client respects the interface contract) — hence for every operation sequence, with arbitrary
    Snapshot/RevertToSnapshot nesting, the outputs coincide. *)
 Theorem C16_bisim_step : forall a s o, Inv a s -> pstep_ok a o = true ->
   exists r a' s', astep a o = (r, a') /\ spec_step s o = (r, s') /\ Inv a' s'.
@@ -103,10 +102,20 @@ Proof.
   split; [vm_compute; reflexivity | vm_compute; discriminate].
 Qed.
 
-Theorem C16_refuted_stale_dirty_index : exists st ops,
-  first_class (a_init st) ops = 3%nat /\ aoutputs (a_init st) ops <> spec_outputs (spec_init st) ops.
-Proof.
-  exists [plain_acct 11%N 9; contract_acct 12%N 4; plain_acct 13%N 2],
-    [Snapshot; SetNonce 12%N 3; AddBalance 13%N 1; RevertToSnapshot 0; AddBalance 13%N 2; GetBalance 13%N].
-  split; [vm_compute; reflexivity | vm_compute; discriminate].
-Qed.
+(* repaired by fix 4b2faa6 (journal.deleteDirty re-indexes, balance/self-destruct undo entries no
+   longer journal): the former witnesses of C16.stale_dirty_index (panic with index out of range;
+   a write lost at Finalise through an aliased dirty counter; the RIPEMD touch surviving a revert)
+   now satisfy the guard and the outputs coincide; the guard of C16_bisim no longer mentions reverts *)
+Example C16_fixed_stale_dirty_index :
+  let st := [plain_acct 11%N 9; {| sa_addr := 12%N; sa_bal := 4; sa_nonce := 1; sa_code := 1%N; sa_stor := [(0%N, 2)]; sa_native := false |};
+             plain_acct 13%N 2] in
+  let ops1 := [Snapshot; SetNonce 12%N 3; AddBalance 13%N 1; RevertToSnapshot 0; AddBalance 13%N 2; GetBalance 13%N;
+               Finalise; GetBalance 13%N; GetNonce 12%N] in
+  let ops2 := [Snapshot; SetNonce 12%N 3; AddBalance 13%N 1; RevertToSnapshot 0; SetState 12%N 0%N 1; Snapshot;
+               SetNonce 13%N 1; RevertToSnapshot 1; Finalise; GetState 12%N 0%N; GetNonce 13%N] in
+  let ops3 := [Snapshot; SetState 12%N 0%N 1; AddBalance 3%N 0; RevertToSnapshot 0; AddBalance 3%N 0; Finalise; Exist 3%N;
+               GetState 12%N 0%N] in
+  pguardedb (a_init st) ops1 = true /\ aoutputs (a_init st) ops1 = spec_outputs (spec_init st) ops1 /\
+  pguardedb (a_init st) ops2 = true /\ aoutputs (a_init st) ops2 = spec_outputs (spec_init st) ops2 /\
+  pguardedb (a_init st) ops3 = true /\ aoutputs (a_init st) ops3 = spec_outputs (spec_init st) ops3.
+Proof. vm_compute. repeat split; reflexivity. Qed.
